@@ -150,7 +150,7 @@ def usable_ops(ops, backend, keyset, valset=None):
     """drop operations a configuration cannot express (keyword update needs str keys; cached objects have dict.copy)"""
     out = []
     for o in ops:
-        if o['op'] in ('updatekw', 'updatekwonly') and keyset not in ('str', 'alias-dash', 'dash', 'prefixy', 'prefixy-id'):
+        if o['op'] in ('updatekw', 'updatekwonly') and keyset not in ('str', 'alias-dash', 'dash', 'slash', 'prefixy', 'prefixy-id'):
             o = dict(o, op='update')       # (keyword arguments need string keys)
         if o['op'] == 'copy' and backend.endswith('+cache'):
             continue
